@@ -1,6 +1,9 @@
 """C08 -- Every request gets a response; uncaught failures become the handler's 500.
 
 Decided:
+  R08.a  (also) the last-resort renderer default_render_error is self-contained: outside a handler of its own it calls
+         nothing reached through the application / the keyword arguments and runs no error renderer again; what runs
+         inside dispatch's generic handler looks no module attribute up under a computed name without default or handler;
   R08.a  user code is always under a handler: on every call-graph path from Application.__call__ to the
          calls that run user code (route.execute -> inject(self._execute), execute_error ->
          inject(self.render_error)) some frame encloses the call in a handler catching Exception;
@@ -10,18 +13,25 @@ Decided:
          back to default_render_error with the *same* parameters (same error);
   R08.b  non-Response results: the isinstance(ret, BaseResponse) test and its ``raise TypeError`` sit in
          the same protected region as route.execute;
-  R08.c  re-raise only on request: in every uncaught_to_response of the ErrorHandler family a bare
-         ``raise`` is dominated by self.reraise_uncaught (REPLErrorHandler, whose purpose is re-raising into
-         the werkzeug debugger, is the one table entry); reraise_uncaught defaults to falsy;
+  R08.c  re-raise only on request: in every uncaught_to_response of the ErrorHandler family whatever lets an
+         exception out (a ``raise``, a call of a function that raises) is dominated by self.reraise_uncaught
+         (REPLErrorHandler, whose purpose is re-raising into the werkzeug debugger, is the one table entry), and what
+         it lets out is the *original* exception: a bare ``raise`` or ``raise <the exception being handled>``
+         (``sys.exc_info()[1]``, ``_error``, through ``.with_traceback``), also inside a helper the parts are handed
+         to -- never an object newly built from it; reraise_uncaught defaults to falsy;
   R08.d  a failed request leaves no trace: no function reachable from Application.__call__ in the core
          modules stores into a shared object (shared with C12).
   R08.e  the serialisers the fallback renderer shares with the primary renderer cannot raise on error data: no error
          text used as a format template; html_escape only on text or as an attempt; every JSON encoding goes through
-         a total encoder (its hook for unknown values returns text instead of raising TypeError);
+         a total encoder (its hook for unknown values returns text instead of raising TypeError); an optional field of
+         the error (filled from an optional constructor keyword, None otherwise) is dereferenced only under a test of it;
   R08.f  URL converters run under a handler (conversion failure = no match);
   R08.g  no strict bytes<->text conversion (``.decode(codec)`` without an errors argument) on the part of the
          request path that no handler covers: the call-graph closure from Application.__call__ through call
          sites not enclosed in a handler catching UnicodeDecodeError (finding F13, DESIGN.md section 5).
+  R08.i  an HTTPException keeps its own status when it is non-breaking: the errors recorded while later routes were
+         tried win over the null route's own 405 / 404 (the sentinel returns a recorded error whenever there is one; its
+         405 and 404 are built only when none was recorded).
 Declined: exceptions raised by other primitive operations outside the protected region (arithmetic,
 indexing, attribute access on werkzeug objects); completeness of werkzeug's response objects.
 """
@@ -213,6 +223,8 @@ def run(rep):
         rep.check('R08.a', fkey(f, 'render_error fallback'), ok and fb_ok,
                   'a failing error renderer falls back to default_render_error with the same parameters (same error)' if ok and fb_ok else
                   'a failing render_error is not replaced by default_render_error(**same params)', app, ee)
+        check_fallback_self_contained(rep, 'R08.a')
+        check_conversion_lookups(rep, 'R08.a')
         star = [k.value for k in eec.keywords if k.arg is None]
         ok = len(star) == 1
         if ok:
@@ -281,15 +293,23 @@ def run(rep):
                 continue
             n += 1
             bare = [r for r in raises_of(m) if r.exc is None]
+            # what leaves on purpose: raise statements and calls of functions that raise; each must hand on the *original*
+            # exception -- the one being handled -- not a new object built from it
+            escapes = exception_escapes(repo, m)
+            wrong = [(st_, why) for st_, why in escapes if why is not None]
+            rep.check('R08.c', fkey(m, 'the original exception'), not wrong,
+                      'what a re-raising handler lets out is the exception being handled itself (%d re-raising statement(s))' % len(escapes) if not wrong else
+                      '%s.uncaught_to_response lets out something else than the exception being handled: %s -- the WSGI server / debugger '
+                      'gets a different object (other identity, args and attributes; a TypeError when the type cannot be built from one '
+                      'argument)' % (c.name, '; '.join(why for st_, why in wrong)), err, wrong[0][0] if wrong else m.node)
             if c.name in TABLE:
                 rep.ok('R08.c', fkey(m), 'table entry: ' + TABLE[c.name], err, m.node)
                 continue
-            bad = [r for r in bare if not has_cond(conds(m, r), lambda t: norm(t) == 'self.reraise_uncaught', True)]
-            other = [r for r in raises_of(m) if r.exc is not None]
-            ok = not bad and not other
+            bad = [st_ for st_, why in escapes if not has_cond(conds(m, st_), lambda t: norm(t) == 'self.reraise_uncaught', True)]
+            ok = not bad
             rep.check('R08.c', fkey(m), ok,
                       're-raises only when self.reraise_uncaught is set (%d bare raise)' % len(bare) if ok else
-                      'uncaught_to_response can raise without reraise_uncaught being set', err, (bad or other or [m.node])[0])
+                      'uncaught_to_response can raise without reraise_uncaught being set', err, (bad or [m.node])[0])
             rs = returns_of(m)
             ok = bool(rs) and all(isinstance(r.value, ast.Call) for r in rs)
             mcfg = cfg_of(m)
@@ -321,6 +341,7 @@ def run(rep):
             raise AnalysisError('format sinks in the to_* serialisers not found')
         check_escape_total(rep, 'R08.e')
         check_json_encoder_total(rep, 'R08.e')
+        check_optional_fields_guarded(rep, 'R08.e')
 
 
     def converter_rules():
@@ -341,9 +362,399 @@ def run(rep):
         rep.rule('R08.g', 'no strict bytes<->text conversion on the part of the request path that no handler covers')
         check_total_decoding(rep, 'R08.g', rp)
 
+    def deferred_error_rules():
+        # ---- R08.i -----------------------------------------------------------
+        rep.rule('R08.i', 'a non-breaking HTTPException that was raised / returned and recorded is the answer when no later route gives '
+                          'one: the null route returns a recorded error before it considers its own 405 / 404')
+        from .c06 import check_sentinel_priority
+        check_sentinel_priority(rep, 'R08.i', repo, app, route, most_recent=False)
+
     # each group is analysed on its own: a construct one group cannot follow does not hide the verdicts of the others
-    for group in (dispatch_rules, reraise_rules, store_rules, serialiser_rules, converter_rules, decoding_rules):
+    for group in (dispatch_rules, reraise_rules, store_rules, serialiser_rules, converter_rules, decoding_rules, deferred_error_rules):
         run_group(rep, group)
+
+
+# ---------------------------------------------------------------------------------------------- R08.a: the last-resort renderer
+RENDERERS = ('render_error', 'execute_error', 'render')
+
+
+def check_fallback_self_contained(rep, rule):
+    """default_render_error is what dispatch falls back to when the error renderer itself failed, and it runs outside any
+    handler.  It is the thing that must not fail: outside a handler of its own it works only on the two objects it is
+    about -- the request and the error -- and on the module's own constants.  A call that is reached through anything else
+    it is handed (the application, its error handler, the route, the remaining keyword arguments) or that runs an error
+    renderer again is application-supplied code -- the very code that has just failed -- and needs a handler around it."""
+    repo = rep.repo
+    app = repo.mod(APP)
+    fi = app.func('default_render_error')
+    ps = fi.params()
+    if len(ps) < 2:
+        raise AnalysisError('default_render_error(request, _error, ..): parameters not found')
+    safe = set(ps[:2])
+    a = fi.node.args
+    tainted = set(x.arg for x in a.posonlyargs + a.args + a.kwonlyargs if x.arg not in safe) | set(x.arg for x in (a.vararg, a.kwarg) if x)
+    grew = True
+    while grew:
+        grew = False
+        for st in stmts_of(fi.node):
+            tg = []
+            if isinstance(st, ast.Assign):
+                tg = [n.id for t in st.targets for n in ast.walk(t) if isinstance(n, ast.Name)]
+                src = st.value
+            elif isinstance(st, (ast.For, ast.With)):
+                continue
+            else:
+                continue
+            if tg and any(isinstance(n, ast.Name) and n.id in tainted for n in ast.walk(src)):
+                for t in tg:
+                    if t not in tainted and t not in safe:
+                        tainted.add(t)
+                        grew = True
+    from ..effects import chain_of
+    bad = []
+    n_calls = 0
+    for c in walk_body(fi.node):
+        if not isinstance(c, ast.Call):
+            continue
+        n_calls += 1
+        if protected_by(fi, c, 'Exception') is not None:
+            continue
+        ch = chain_of(c.func) or []
+        if a.kwarg is not None and ch[:1] == [a.kwarg.arg] and len(ch) == 2 and ch[1] in ('get', 'pop', 'items', 'keys', 'values', 'setdefault', 'copy'):
+            continue          # the ``**kwargs`` mapping is a dict of this call's own
+        if ch and ch[0] in tainted:
+            bad.append((c, 'reached through %s, which the caller supplies' % ch[0]))
+        elif call_tail(c) in RENDERERS and not (isinstance(c.func, ast.Name)):
+            bad.append((c, 'an error renderer is run again'))
+        elif not ch and any(isinstance(n, ast.Name) and n.id in tainted for n in ast.walk(c.func)):
+            bad.append((c, 'the callee is computed from what the caller supplies'))
+    rep.check(rule, fkey(fi, 'self-contained'), not bad,
+              'outside a handler the last-resort renderer only works on the request, the error and module constants (%d calls)' % n_calls if not bad else
+              'default_render_error -- what dispatch falls back to after the error renderer failed, outside any handler -- calls %s (%s): '
+              'application-supplied rendering code runs on the path that must not fail, and its exception reaches the WSGI server'
+              % (short(bad[0][0], 70), bad[0][1]), app, bad[0][0] if bad else fi.node)
+
+
+# ---------------------------------------------------------------------------------------------- the conversion of an uncaught exception is total
+def conversion_closure(repo):
+    """The functions that run inside dispatch's generic handler to turn an uncaught exception into a response, as far as no
+    handler (catching AttributeError / KeyError) of their own covers the call: every ``uncaught_to_response`` of the
+    ErrorHandler family, the constructors of the classes the family names in a class attribute and instantiates there
+    (``eh.server_error_type(..)``, ``eh.exc_info_type.from_current()`` when in the tree) with the base-class constructors
+    they delegate to, and the functions of the tree those call."""
+    from ..effects import callee_of
+    err = repo.mod(ERR)
+    ehc = err.cls('ErrorHandler')
+    fam = [ehc] + repo.subclasses(ehc, [err])
+    type_attrs = {}
+    for c in fam:
+        for name, v in c.class_attrs.items():
+            if isinstance(v, ast.Name):
+                k, m, obj = repo.resolve(c.mod, v.id)
+                if k == 'class' and m is not None and not m.external:
+                    type_attrs.setdefault(name, []).append(obj)
+    todo = [(c.methods['uncaught_to_response'], 0) for c in fam if 'uncaught_to_response' in c.methods]
+    seen = []
+    while todo:
+        fi, d = todo.pop()
+        if any(fi is x for x in seen) or d > 4:
+            continue
+        seen.append(fi)
+        for c in walk_body(fi.node):
+            if not isinstance(c, ast.Call) or protected_by(fi, c, 'AttributeError') is not None:
+                continue
+            f = resolve_local(fi.node, c.func)
+            nxt = []
+            if isinstance(f, ast.Attribute) and f.attr in type_attrs:
+                for cls in type_attrs[f.attr]:
+                    init = repo.find_method(cls, '__init__')
+                    if init is not None and not init.mod.external:
+                        nxt.append(init)
+            elif isinstance(f, ast.Attribute) and f.attr == '__init__' and 'super' in norm(f.value) and fi.cls is not None:
+                mro = [k for k in repo.mro(fi.cls) if hasattr(k, 'methods')]
+                for k in mro[1:]:
+                    if '__init__' in k.methods and not k.mod.external:
+                        nxt.append(k.methods['__init__'])
+                        break
+            else:
+                g = callee_of(repo, fi, c)
+                if g is not None:
+                    nxt.append(g)
+            todo.extend((g, d + 1) for g in nxt)
+    return seen
+
+
+def check_conversion_lookups(rep, rule):
+    """The exception an endpoint dies with is arbitrary (any class of any module).  What runs inside dispatch's generic
+    handler to build the server-error response must not depend on the exception's type being one it knows: looking an
+    attribute of a *module* up under a computed name (``getattr(builtins, type_name)``, ``vars(mod)[name]``,
+    ``globals()[name]``) succeeds only for the names that module happens to define, so outside a handler -- and without a
+    default -- it raises for every other exception type, inside the handler that was the last line of defence."""
+    repo = rep.repo
+    fns = conversion_closure(repo)
+    if len(fns) < 3:
+        raise AnalysisError('conversion of uncaught exceptions: only %d functions found (floor 3)' % len(fns))
+    n = 0
+    for fi in fns:
+        def is_module(e):
+            return isinstance(e, ast.Name) and repo.resolve(fi.mod, e.id)[0] == 'module' and \
+                not any(isinstance(x, ast.Name) and x.id == e.id and isinstance(x.ctx, ast.Store) for x in walk_body(fi.node))
+        for c in walk_body(fi.node):
+            what, exc = None, None
+            if isinstance(c, ast.Call) and isinstance(c.func, ast.Name) and c.func.id == 'getattr' and len(c.args) == 2 and not c.keywords and \
+                    not isinstance(c.args[1], ast.Constant) and is_module(c.args[0]):
+                what, exc = c, 'AttributeError'
+            elif isinstance(c, ast.Subscript) and isinstance(c.ctx, ast.Load) and not isinstance(c.slice, ast.Constant):
+                v = c.value
+                if (isinstance(v, ast.Attribute) and v.attr == '__dict__' and is_module(v.value)) or \
+                        (isinstance(v, ast.Call) and isinstance(v.func, ast.Name) and
+                         ((v.func.id == 'vars' and len(v.args) == 1 and is_module(v.args[0])) or (v.func.id == 'globals' and not v.args))):
+                    what, exc = c, 'KeyError'
+            if what is None:
+                continue
+            n += 1
+            h = protected_by(fi, what, exc)
+            rep.check(rule, fkey(fi, norm(what)[:70]), h is not None,
+                      'the lookup by computed name is an attempt (under "except %s")' % (norm(h.type) if h is not None and h.type is not None else '<bare>')
+                      if h is not None else
+                      '%s looks a module attribute up under a computed name (%s) with no default and no handler, while converting an uncaught '
+                      'exception inside dispatch\'s generic handler: for an exception type the module does not define this raises %s there, and '
+                      'the request gets no response at all' % (fi.qualname, short(what, 60), exc), fi.mod, what)
+    rep.ok(rule, '%s::conversion of uncaught exceptions' % ERR, '%d function(s) run inside dispatch\'s generic handler; %d lookup(s) of module '
+           'attributes by computed name inspected' % (len(fns), n))
+
+
+# ---------------------------------------------------------------------------------------------- R08.c: what a re-raise lets out
+_KNOWN_RERAISERS = {'six.reraise': 1, 'future.utils.raise_': 1}       # external helpers raising their argument number <n> as it is
+
+
+def _exc_info_part(e):
+    """``sys.exc_info()[i]`` -> i; the call itself -> 'all'; else None"""
+    def is_call(c):
+        return isinstance(c, ast.Call) and not c.args and not c.keywords and norm(c.func) in ('sys.exc_info', 'exc_info')
+    if is_call(e):
+        return 'all'
+    if isinstance(e, ast.Subscript) and is_call(e.value) and isinstance(e.slice, ast.Constant) and e.slice.value in (0, 1, 2):
+        return e.slice.value
+    return None
+
+
+def _exc_role(fi, e, roles, depth=0):
+    """What expression ``e`` of function ``fi`` denotes: 'value' -- the exception being handled itself; 'type' / 'tb' -- its
+    type / traceback; None -- anything else (in particular a newly built object).  ``roles``: parameter name -> role."""
+    from ..astutil import assigned_value
+    if depth > 5:
+        return None
+    if isinstance(e, ast.Call) and isinstance(e.func, ast.Attribute) and e.func.attr == 'with_traceback' and len(e.args) == 1 and not e.keywords:
+        return 'value' if _exc_role(fi, e.func.value, roles, depth + 1) == 'value' else None      # returns the exception itself
+    part = _exc_info_part(e)
+    if part in (0, 1, 2):
+        return ('type', 'value', 'tb')[part]
+    if isinstance(e, ast.Name):
+        av = assigned_value(fi.node, e.id)
+        stored = any(isinstance(n, ast.Name) and n.id == e.id and isinstance(n.ctx, (ast.Store, ast.Del)) for n in walk_body(fi.node))
+        if e.id in roles and not stored:
+            return roles[e.id]
+        if e.id == '_error' and e.id in fi.params() and not stored:
+            return 'value'            # the keyword dispatch passes the exception under
+        if len(av) == 1 and isinstance(av[0][0], ast.Assign) and e.id not in fi.params():
+            st, val, idx = av[0]
+            if idx is None:
+                return _exc_role(fi, val, roles, depth + 1)
+            if isinstance(idx, int) and _exc_info_part(val) == 'all' and idx in (0, 1, 2):
+                return ('type', 'value', 'tb')[idx]           # ``tp, value, tb = sys.exc_info()``
+            if isinstance(idx, int) and isinstance(val, (ast.Tuple, ast.List)) and idx < len(val.elts) and \
+                    not any(isinstance(x, ast.Starred) for x in val.elts):
+                return _exc_role(fi, val.elts[idx], roles, depth + 1)
+        return None
+    kw = fi.node.args.kwarg.arg if fi.node.args.kwarg is not None else None
+    if kw is not None:
+        if isinstance(e, ast.Subscript) and norm(e.value) == kw and isinstance(e.slice, ast.Constant) and e.slice.value == '_error':
+            return 'value'
+        if isinstance(e, ast.Call) and norm(e.func) in ('%s.get' % kw, '%s.pop' % kw) and len(e.args) == 1 and \
+                isinstance(e.args[0], ast.Constant) and e.args[0].value == '_error':
+            return 'value'
+    if isinstance(e, ast.Call) and isinstance(e.func, ast.Name) and e.func.id == 'type' and len(e.args) == 1 and not e.keywords:
+        return 'type' if _exc_role(fi, e.args[0], roles, depth + 1) == 'value' else None
+    if isinstance(e, ast.Attribute) and e.attr in ('__class__', '__traceback__'):
+        return {'__class__': 'type', '__traceback__': 'tb'}[e.attr] if _exc_role(fi, e.value, roles, depth + 1) == 'value' else None
+    return None
+
+
+def _raise_lets_out(fi, r, roles):
+    """None when raise statement ``r`` of ``fi`` re-raises the exception being handled (bare ``raise``, or ``raise <that
+    exception>`` -- also through ``.with_traceback(..)``); else a text saying what it raises"""
+    if r.exc is None:
+        return None
+    if _exc_role(fi, r.exc, roles) == 'value':
+        return None
+    return '%s raises %s' % (fi.qualname, short(r.exc, 60))
+
+
+def exception_escapes(repo, m):
+    """[(statement of ``m``, None | what is wrong)] for every statement of ``m`` (an ``uncaught_to_response``) through which an
+    exception leaves on purpose: its own ``raise`` statements, and calls of functions of the tree (or known external
+    re-raisers) that raise -- followed one level, the exception's parts matched to the callee's parameters by position,
+    keyword and ``*sys.exc_info()``."""
+    out = []
+    for r in raises_of(m):
+        if protected_by(m, r, 'Exception') is None:
+            out.append((r, _raise_lets_out(m, r, {})))
+    for c in walk_body(m.node):
+        if not isinstance(c, ast.Call):
+            continue
+        callee, known = None, None
+        f = c.func
+        if isinstance(f, ast.Name):
+            kind, mod2, obj = repo.resolve(m.mod, f.id)
+            if kind == 'func' and mod2 is not None and not mod2.external:
+                callee = obj
+            elif kind == 'external' and obj in _KNOWN_RERAISERS:
+                known = _KNOWN_RERAISERS[obj]
+        elif isinstance(f, ast.Attribute) and isinstance(f.value, ast.Name):
+            if f.value.id in ('self', 'cls') and m.cls is not None:
+                callee = repo.find_method(m.cls, f.attr)
+                if callee is not None and callee.mod.external:
+                    callee = None
+            else:
+                kind, mod2, obj = repo.resolve(m.mod, f.value.id)
+                if kind == 'module':
+                    dotted = '%s.%s' % (obj, f.attr)
+                    if dotted in _KNOWN_RERAISERS:
+                        known = _KNOWN_RERAISERS[dotted]
+                    elif mod2 is not None and not mod2.external and f.attr in mod2.functions:
+                        callee = mod2.functions[f.attr]
+        if callee is None and known is None:
+            continue
+        # the roles of the arguments, in order
+        pos = []
+        for a in c.args:
+            if isinstance(a, ast.Starred):
+                pos.extend(['type', 'value', 'tb'] if _exc_info_part(a.value) == 'all' else [None, None, None, None])
+            else:
+                pos.append(_exc_role(m, a, {}))
+        st = stmt_of(m.mod, c)
+        if known is not None:
+            ok = len(pos) > known and pos[known] == 'value'
+            out.append((st, None if ok else '%s is not given the exception being handled' % norm(f)))
+            continue
+        rz = [r for r in raises_of(callee) if protected_by(callee, r, 'Exception') is None]
+        if not rz:
+            continue
+        ps = callee.params()
+        if callee.cls is not None and not any(isinstance(d, ast.Name) and d.id == 'staticmethod' for d in callee.node.decorator_list):
+            ps = ps[1:]
+        roles = dict(zip(ps, pos))
+        for k in c.keywords:
+            if k.arg is not None:
+                roles[k.arg] = _exc_role(m, k.value, {})
+        roles = dict((k, v) for k, v in roles.items() if v is not None)
+        whys = [w for w in (_raise_lets_out(callee, r, roles) for r in rz) if w is not None]
+        out.append((st, '; '.join(whys) if whys else None))
+    return out
+
+
+# ---------------------------------------------------------------------------------------------- R08.e: optional fields of an error
+def _maybe_none(init, v):
+    """the value a constructor stores can be None: ``kw.pop(name, None)`` / ``kw.get(name)`` / ``None`` / a parameter
+    whose default is None"""
+    if isinstance(v, ast.Constant):
+        return v.value is None
+    if isinstance(v, ast.Call) and isinstance(v.func, ast.Attribute) and v.func.attr in ('pop', 'get') and v.args and not v.keywords:
+        return len(v.args) == 1 and v.func.attr == 'get' or (len(v.args) == 2 and isinstance(v.args[1], ast.Constant) and v.args[1].value is None)
+    if isinstance(v, ast.Name):
+        a = init.node.args
+        pos = a.posonlyargs + a.args
+        dflt = dict(zip([x.arg for x in pos][len(pos) - len(a.defaults):], a.defaults))
+        dflt.update((x.arg, d) for x, d in zip(a.kwonlyargs, a.kw_defaults) if d is not None)
+        d = dflt.get(v.id)
+        return isinstance(d, ast.Constant) and d.value is None and \
+            not any(isinstance(n, ast.Name) and n.id == v.id and isinstance(n.ctx, ast.Store) for n in walk_body(init.node))
+    return False
+
+
+def optional_fields(repo, ci):
+    """Fields of class ``ci`` that an instance can hold as None: every store to ``self.<f>`` in the class family's methods is
+    in a constructor and stores a maybe-None value (see _maybe_none): {field: (constructor, statement)}"""
+    stores = {}
+    for c in repo.mro(ci):
+        if not hasattr(c, 'methods') or c.mod.external:
+            continue
+        for m in c.methods.values():
+            for st in stmts_of(m.node):
+                tg = st.targets if isinstance(st, ast.Assign) else [st.target] if isinstance(st, (ast.AugAssign, ast.AnnAssign)) else []
+                for t in tg:
+                    for x in (t.elts if isinstance(t, (ast.Tuple, ast.List)) else [t]):
+                        if isinstance(x, ast.Attribute) and isinstance(x.value, ast.Name) and x.value.id == 'self':
+                            v = st.value if isinstance(st, ast.Assign) and x is t else None
+                            stores.setdefault(x.attr, []).append((m, st, v))
+    out = {}
+    for f, lst in stores.items():
+        if all(m.name == '__init__' and v is not None and _maybe_none(m, v) for m, st, v in lst):
+            out[f] = (lst[0][0], lst[0][1])
+    return out
+
+
+def check_optional_fields_guarded(rep, rule):
+    """An error's optional fields -- those its constructors fill from an optional keyword (``kwargs.pop('exc_info', None)``)
+    and nothing else assigns -- are None for an error that application code builds itself (``raise BadGateway()``).  In the
+    to_* serialisers of the HTTPException family (and the functions of the module they call) such a field is therefore
+    not dereferenced -- attribute / method / item access, membership, len() -- unless the access is guarded by a test of
+    the field, short-circuited by it, or under a handler: the renderer and its default_render_error fallback run the
+    same serialiser, so an AttributeError there reaches the WSGI server."""
+    from .c09 import _escape_scope
+    from .c15_nullable import _deref_kind, _short_circuited
+    from .common import implies_present
+    repo = rep.repo
+    err = repo.mod(ERR)
+    base = err.cls('HTTPException')
+    fam = [base] + repo.subclasses(base, [err])
+    seen, n_reads, n_fields = set(), 0, set()
+    for c in fam:
+        opt = optional_fields(repo, c)
+        if not opt:
+            continue
+        for name, m in sorted(c.methods.items()):
+            if not name.startswith('to_'):
+                continue
+            for fi in _escape_scope(repo, err, m):
+                if fi.cls is None or not any(fi.cls is k for k in repo.mro(c)):
+                    continue
+                # locals that hold exactly such a field's value (``info = self.exc_info``)
+                carriers = {}
+                for s_ in stmts_of(fi.node):
+                    if isinstance(s_, ast.Assign) and len(s_.targets) == 1 and isinstance(s_.targets[0], ast.Name):
+                        v_ = s_.value
+                        carriers.setdefault(s_.targets[0].id, []).append(
+                            v_.attr if isinstance(v_, ast.Attribute) and isinstance(v_.value, ast.Name) and v_.value.id == 'self' and v_.attr in opt else None)
+                carriers = dict((k, v[0]) for k, v in carriers.items() if len(v) == 1 and v[0] is not None and k not in fi.params())
+                for n in walk_body(fi.node):
+                    field = None
+                    if isinstance(n, ast.Attribute) and isinstance(n.value, ast.Name) and n.value.id == 'self' and n.attr in opt and \
+                            isinstance(n.ctx, ast.Load):
+                        field = n.attr
+                    elif isinstance(n, ast.Name) and n.id in carriers and isinstance(n.ctx, ast.Load):
+                        field = carriers[n.id]
+                    if field is None or (id(n), c.name) in seen:
+                        continue
+                    seen.add((id(n), c.name))
+                    kind = _deref_kind(fi.mod, n)
+                    if kind is None:
+                        continue
+                    n_reads += 1
+                    n_fields.add(field)
+                    text = norm(n)
+                    ok = implies_present(conds(fi, n), text) or _short_circuited(fi.mod, n, text) or \
+                        protected_by(fi, n, 'AttributeError') is not None
+                    init, st = opt[field]
+                    rep.check(rule, fkey(fi, '%s %s in %s' % (text, kind, c.name)), ok,
+                              '%s (%s) only where the optional field is known to be set' % (text, kind) if ok else
+                              '%s.%s uses %s as %s, but the field is None unless the error was built with it (%s: %s): for a %s that '
+                              'application code raises or returns itself the serialiser raises -- in render_error and again in its '
+                              'default_render_error fallback -- and the exception reaches the WSGI server'
+                              % (fi.cls.name, fi.name, text, kind, init.qualname, short(st, 60), c.name), fi.mod, n)
+    rep.ok(rule, '%s::optional fields of errors' % ERR, '%d dereference(s) of optional error fields (%s) in the to_* serialisers inspected'
+           % (n_reads, ', '.join(sorted(n_fields)) or 'none'))
 
 
 # ---------------------------------------------------------------------------------------------- R08.e: total JSON encoding
